@@ -3,7 +3,7 @@ from . import race
 from ..runner import Ob
 META = dict(
     functions=['every OpenMP-outlined function (.omp_outlined.*) of ntt_goldilocks.cpp, poseidon_goldilocks.cpp and goldilocks_base_field.cpp compiled with -fopenmp: NTT_iters batch loop, the reversePermutation loops (copy, zero-padding copy, in-place swap, in-place zero-padding swap), NTT block scatter loop, leaf and level loops of the six Merkle builders, parcpy, parSetZero'],
-    bounds={'quick': 'region instances reached by: NTT/INTT n in {4,8} x ncols {1,2} x nphase {1,2,3} x nblock {1,2} x dst modes; extendPol (N,N_ext) in {(2,4),(4,8),(4,4)} incl. even nphase; Merkle rows {2,4,8} x cols {0,3,9} x dim {1,2} x batch {none,2}; the iteration pair is symbolic (all pairs of distinct iterations); parcpy/parSetZero: size < 2^60 and thread count fully symbolic',
+    bounds={'quick': 'region instances reached by: NTT/INTT n in {4,8} x ncols {1,2} (plus n = 64 for three schedules) x nphase {1,2,3} x nblock {1,2} x dst modes; extendPol (N,N_ext) in {(2,4),(4,8),(4,4)} x ncols {1,2,3} x nphase {1,2,3} x nblock {1,2}; Merkle rows {2,4,8} x cols {0,3,9} x dim {1,2} x batch {none,2}; the iteration pair is symbolic (all pairs of distinct iterations); parcpy/parSetZero: size < 2^60 and thread count fully symbolic',
             'thorough': 'n up to 32, ncols up to 3, Merkle rows up to 16'},
     outside=['shapes above the bound', 'the OpenMP runtime itself and clang\'s outlining (trusted)', 'output equality with the single-thread execution is a consequence of non-interference (Bernstein) and is not re-measured'],
     stubs=['__kmpc_fork_call: the outlined function is executed for one symbolic iteration (analysis) and then sequentially over the whole space', '__kmpc_for_static_init_*: hands the team member the range [i,i] for a symbolic i within the loop bounds', 'hash_full_result* and scalar add/sub/mul: frame summaries (extents read/written) during the analysis'],
@@ -22,11 +22,17 @@ def obligations(ctx):
                         for dstmode, buf in (('other', False), ('same', True), ('null', False)):
                             if d > 3 and (dstmode, buf) != ('other', False): continue
                             obs.append(Ob('%s/n%d/c%d/p%d/b%d/%s' % (kind, 1 << d, ncols, nphase, nblock, dstmode), race.ob_ntt, (kind, d, d, ncols, nphase, nblock, dstmode, buf), weight=(1 << d) * ncols))
+    for d in ((6, 7) if ctx.thorough else (6,)):          # larger transforms, default-like schedules
+        for kind in ('ntt', 'intt'):
+            for nphase, nblock, ncols in ((3, 1, 1), (2, 1, 2), (4, 2, 2)):
+                obs.append(Ob('%s/n%d/c%d/p%d/b%d/other' % (kind, 1 << d, ncols, nphase, nblock), race.ob_ntt, (kind, d, d, ncols, nphase, nblock, 'other', False), weight=(1 << d) * ncols * 2))
     for (a, b) in ((1, 2), (2, 3), (2, 2)) + (((3, 5),) if ctx.thorough else ()):
-        for ncols in (1, 2):
+        for ncols in (1, 2, 3):
             for nphase in (1, 2, 3):
-                for inplace in (False, True):
-                    obs.append(Ob('ext/N%d/Next%d/c%d/p%d/%s' % (1 << a, 1 << b, ncols, nphase, 'inplace' if inplace else 'distinct'), race.ob_ntt, ('ext', a, b, ncols, nphase, 1, 'same' if inplace else 'other', False), dict(a=a), weight=(1 << b) * ncols))
+                for nblock in (1, 2):
+                    if nblock > ncols or (ncols == 3 and nblock == 1): continue
+                    for inplace in (False, True):
+                        obs.append(Ob('ext/N%d/Next%d/c%d/p%d/b%d/%s' % (1 << a, 1 << b, ncols, nphase, nblock, 'inplace' if inplace else 'distinct'), race.ob_ntt, ('ext', a, b, ncols, nphase, nblock, 'same' if inplace else 'other', False), dict(a=a), weight=(1 << b) * ncols))
     R = (2, 4, 8, 16) if ctx.thorough else (2, 4, 8)
     for var in ('seq', 'avx', 'avx512'):
         for rows in R:
@@ -35,6 +41,9 @@ def obligations(ctx):
                     for batch in (None, 2):
                         if rows == 8 and dim == 2 and cols == 9 and not ctx.thorough: continue
                         obs.append(Ob('tree/%s/r%d/c%d/d%d/%s' % (var, rows, cols, dim, 'plain' if batch is None else 'b%d' % batch), race.ob_tree, (var, rows, cols, dim, batch, (0, 1, 3)[(rows + cols) % 3]), weight=rows * (cols + 1)))
+    for var in ('seq', 'avx', 'avx512'):
+        for rows, cols, batch in ((32, 3, None), (32, 9, 4), (64, 1, None)):
+            obs.append(Ob('tree/%s/r%d/c%d/d1/%s' % (var, rows, cols, 'plain' if batch is None else 'b%d' % batch), race.ob_tree, (var, rows, cols, 1, batch, 3), weight=rows * (cols + 1)))
     obs.append(Ob('parcpy/chunks', race.ob_parcpy_chunks, ('parcpy',))); obs.append(Ob('parSetZero/chunks', race.ob_parcpy_chunks, ('parSetZero',)))
     return obs
 def replay(ctx, d): return True, str(d)
